@@ -105,8 +105,10 @@ def covers (t : VTable) (req : Bool) (fs : List FieldLine) : Bool :=
        | _ => true)
     | _ => true))
 
-/-- the table against `HttpLaws` (only entries that are present can be judged). -/
+/-- the table against `HttpLaws` and `H3.Props.C12.HttpSyntaxLaws` (`PathAndQuery::from_str("")` fails:
+    the one clause of `SyntaxOk` h3 still delegates); only entries that are present can be judged. -/
 def lawsOk (t : VTable) : Bool :=
+  t.p.all (fun (v, r) => v != [] || r == none) &&
   t.a.all (fun (v, r) => (v != [] || r == none) && (r == none || r == some v)) &&
   t.u.all (fun ((_, a, _), r) =>
     (a != [] || r == none) && (r == none || lookup t.a a == some (some a)))
@@ -115,6 +117,8 @@ def lawsOk (t : VTable) : Bool :=
     (`H3.E2E.HttpRoundTrip`; only what the table can judge): a value the `Scheme` /
     `PathAndQuery` parser accepts prints as a value that the parser accepts and prints unchanged
     (judged when the printed value is in the table — in particular when it prints as itself); a
+    what the `PathAndQuery` parser prints holds no `#` (`path_print_no_fragment`, D-12g: the `:path` h3
+    writes from an `http::Uri` passes the receiver's own check); a
     built `Uri` has exactly the parts it was built from; a scheme, an authority and a
     path-and-query that each parse to themselves always build; so does such an authority alone
     (the authority-form target of a plain CONNECT). -/
@@ -126,6 +130,9 @@ def roundTripOk (t : VTable) : Bool :=
         | some y => y == some x
         | none => true))
   idem t.s && idem t.p &&
+  t.p.all (fun (_, r) => match r with
+    | none => true
+    | some x => pathSyntax x) &&
   t.u.all (fun ((s, a, p), r) => match r with
     | none => true
     | some u => u.scheme == s && u.authority == some a && u.path == p) &&
@@ -197,11 +204,6 @@ def agreed (vs : List Bytes) (none_ : String) : String :=
   match vs with
   | [] => none_
   | v :: r => if r.all (· == v) then toHex v else "*"
-
-/-- the site tag of finding D-12g: the model hands the request over although a `:scheme`,
-    `:authority` or `:path` value fails a crate-independent necessary condition (R-12c) -/
-def tagSyntax (fs : List FieldLine) : String :=
-  if H3.Spec.Headers.SyntaxOk fs then "" else " #D-12g"
 
 def specReq (H : Http) (fs : List FieldLine) : String :=
   if H3.Spec.Headers.WellFormedRequestStrict H fs then
@@ -304,7 +306,7 @@ def handle0 : List String → String
       let H := httpOf t
       if op == "req" then
         let m := match recvRequest H fs with
-          | .ok r => s!"ok method {toHex r.method} scheme {optHex r.uri.scheme} authority {optHex r.uri.authority} path {optHex r.uri.path} proto {optHex r.protocol} headers {showFields (hmIter r.headers)}{tagSyntax fs}"
+          | .ok r => s!"ok method {toHex r.method} scheme {optHex r.uri.scheme} authority {optHex r.uri.authority} path {optHex r.uri.path} proto {optHex r.protocol} headers {showFields (hmIter r.headers)}"
           | .err e => "reject " ++ e.name
           | .panic => "panic"
         m ++ " ## " ++ specReq H fs
@@ -316,7 +318,7 @@ def handle0 : List String → String
         m ++ " ## " ++ specResp H fs
       else if op == "srv" then
         let m := match recvRequest H fs with
-          | .ok r => s!"ok method {toHex r.method} scheme {optHex r.uri.scheme} authority {optHex r.uri.authority} path {optHex r.uri.path} proto {optHex r.protocol} headers {showFields (hmIter r.headers)}{tagSyntax fs}"
+          | .ok r => s!"ok method {toHex r.method} scheme {optHex r.uri.scheme} authority {optHex r.uri.authority} path {optHex r.uri.path} proto {optHex r.protocol} headers {showFields (hmIter r.headers)}"
           | .err e => showRefusalFull (siteResolve e)
           | .panic => "panic"
         m ++ " ## " ++ specSrv H fs
